@@ -39,10 +39,10 @@
          expression yields an int cell: no typing hypothesis is needed; `x = y + 0` for `x = y`);
      (c) bound names: a block's function run does not shadow a name in scope (run_ok), nested functions are not
          named like top-level functions; all function names pairwise different (prog_in_P);
-     (d) a function nested in a NAMED nested function f does not mention f (the free variables of a nested
-         function are in scope, and a function's own name is not): the repaired emitter's shape (capture by
-         COPYGLOB; ID_FUNC_ADDR f) IS in the model Compile4.capture and in the level-4 tie, not in the proof
-         (CompileCorrect4Base.resolves excludes it).
+     (d) at level 5 only: a function nested in a NAMED nested function f does not mention f.  At level 6 it may
+         (the repaired emitter's shape: the closure maker captures f by COPYGLOB; ID_FUNC_ADDR f — a copy;
+         Compile4.capture, the level-4 tie, CompileCorrect4Base.capture_run_s / closure_run_s / sibling_run_s,
+         Example ex11).
    The lemmas of the first proof round (machine side, C08 facts, simulation cases over MS4) stay below.
    No axioms. *)
 From Coq Require Import ZArith List Bool Lia.
@@ -126,6 +126,40 @@ Theorem sibling_run : forall X prog FT TL fc ce gl stk h o fr L fds addrss ks pc
     filled X H' (length h + k) (length h) addrss ks.
 Proof. exact CompileCorrect4Base.sibling_run. Qed.
 Print Assumptions sibling_run.
+
+(* the same for the repaired emitter: a closure made in the code of the NAMED nested function fc_self fc may capture
+   that function itself — COPYGLOB; ID_FUNC_ADDR f makes one new function object (a copy, with the running
+   vector) at the heap's end before the closure's vector; `resolves_s … hl` gives the copy's address hl *)
+Theorem closure_run_self : forall X prog FT TL fc ce stk gl h o fr L g addrs pc k ks,
+  NoDup (fvs_fd TL g) ->
+  (forall y, self_is (fc_self fc) y = true -> clookup y ce = None -> fidx FT y = Z.of_nat ks) ->
+  gl = [] \/ nth_error h (r_gp fr) = Some (HVec gl) ->
+  Forall2 (resolves_s fc L ce stk gl (length h)) (fvs_fd TL g) addrs ->
+  fidx FT (fd_name g) = Z.of_nat k ->
+  code_at prog pc (closure_code FT TL fc L ce g) ->
+  let cps := if selfcap fc ce (fvs_fd TL g) then [HFun (r_gp fr) (nth ks (x_ftab X) 0%nat)] else [] in
+  star X prog (mkst pc stk h o fr)
+       (mkst (pc + length (closure_code FT TL fc L ce g)) (S (length h + length cps) :: stk)
+             (h ++ cps ++ [HVec addrs; HFun (length h + length cps) (nth k (x_ftab X) 0%nat)]) o fr).
+Proof. exact CompileCorrect4Base.closure_run_s. Qed.
+Print Assumptions closure_run_self.
+
+Theorem sibling_run_self : forall X prog FT TL fc ce gl stk h o fr L fds addrss ks pc kself,
+  (forall y, self_is (fc_self fc) y = true -> clookup y ce = None -> fidx FT y = Z.of_nat kself) ->
+  (forall fd, In fd fds -> NoDup (fvs_fd TL fd)) ->
+  gl = [] \/ nth_error h (r_gp fr) = Some (HVec gl) ->
+  let k := length fds in
+  let Sk := rev (seq (length h) k) ++ stk in
+  rr TL fc L ce Sk gl (length h + k) fds addrss ->
+  Forall2 (fun fd kk => fidx FT (fd_name fd) = Z.of_nat kk) fds ks ->
+  code_at prog pc (ins BYTECODE_ALLOC (Z.of_nat k) 0 :: run_code_f (closure_code FT TL fc L ce) fds k) ->
+  exists H',
+    star X prog (mkst pc stk h o fr)
+         (mkst (pc + S (length (run_code_f (closure_code FT TL fc L ce) fds k))) Sk H' o fr) /\
+    (forall a, (a < length h)%nat -> nth_error H' a = nth_error h a) /\
+    filled_s X TL fc H' (length h + k) (length h) (length h + k) ce (r_gp fr) kself fds addrss ks.
+Proof. exact CompileCorrect4Base.sibling_run_s. Qed.
+Print Assumptions sibling_run_self.
 
 (* the code of a block that starts with a run of function items is that ALLOC … sequence *)
 Theorem compile_items_run : forall cx cxl cf L ce fd t,
@@ -364,6 +398,30 @@ Proof. vm_compute. repeat split; reflexivity. Qed.
 
 Example ex9_runs :
   run_vm ex9 3000 [5] = VRet 12 [] /\ run_program 300 ex9 [5] = OResult (CInt 12) [].
+Proof. vm_compute. split; reflexivity. Qed.
+
+(* the repaired emitter's shape (level 6): a helper nested in the NAMED nested function f mentions f — the closure
+   of h captures f by COPYGLOB; ID_FUNC_ADDR f:
+     func main(x : int) -> int
+     { func f(n : int, a : int) -> int
+       { func h(m : int) -> int { f(m - 1, a) + n }; (n <= 0) ? a : (n + h(n)) };
+       f(x, 1) + 0 }
+   the real VM (repaired /repo) returns 13 on 3 *)
+Definition h11 : fdef := FDef 5%N [(6%N, false, TInt)] TInt
+  [IExpr (EBin Add (ECall (EVar 2%N) [EBin Sub (EVar 6%N) (EInt 1); EVar 4%N]) (EVar 3%N))] [] None.
+Definition f11 : fdef := FDef 2%N [(3%N, false, TInt); (4%N, false, TInt)] TInt
+  [IFunc h11;
+   IExpr (ECond (EBin Le (EVar 3%N) (EInt 0)) (EVar 4%N) (EBin Add (EVar 3%N) (ECall (EVar 5%N) [EVar 3%N])))] [] None.
+Definition main11 : fdef := FDef 0%N [(1%N, false, TInt)] TInt
+  [IFunc f11; IExpr (EBin Add (ECall (EVar 2%N) [EVar 1%N; EInt 1]) (EInt 0))] [] None.
+Definition ex11 : program := {| p_recs := []; p_funcs := [main11]; p_main := 0%N |}.
+
+Example ex11_in_P : prog_in_P 6 ex11 = true /\ prog_in_P 5 ex11 = false /\ prog_in_F4 ex11 = true /\
+  fvs_fd (tnames ex11) h11 = [2; 4; 3]%N.
+Proof. vm_compute. repeat split; reflexivity. Qed.
+
+Example ex11_runs :
+  run_vm ex11 3000 [3] = VRet 13 [] /\ run_program 300 ex11 [3] = OResult (CInt 13) [].
 Proof. vm_compute. split; reflexivity. Qed.
 
 (* why level 6 restricts the assigned names: with copies AND assignment to any name the untyped evaluator and the
